@@ -184,7 +184,7 @@ def h_shooting(h):
                 conc=lambda: abs(res) <= 1e-9)
 
 
-def h_maxal(h, part):
+def h_maxal(h, part, cap=100.0):
     """template.maxAl: (a) the residual it brackets is the SAME wall-matching residual as _eqWall
     (evaluated through the real _eqWall with getVp / wFromAlpha pinned to the closure's v+ and w+);
     (b) its sentinels: no sign change below the cap => the cap (no finite bound); residual positive
@@ -234,7 +234,6 @@ def h_maxal(h, part):
                 core.OR(core.eq(val, ref), core.eq(val, -ref)),
                 conc=(lambda: min(abs(val - ref), abs(val + ref)) <= 1e-9 * (1 + abs(ref))) if not h.symbolic else None)
         return
-    cap = 100.0
     out = t.maxAl(cap)
     lower = (1 - t.psiN) / 3
     roots = [c for c in st.calls if c[0] == "root_scalar"]
@@ -287,7 +286,13 @@ HARNESSES = [
                encodes=[HT.HydrodynamicsTemplateModel.detonationVAndT], random_validation=3),
     HarnessDef("template-ode", h_ode, [dict(wave="shock"), dict(wave="rarefaction")], max_paths=20, timeout_s=60,
                axioms=AX, encodes=[HT.HydrodynamicsTemplateModel._dxiAndWdv], random_validation=3),
-    HarnessDef("template-maxAl", h_maxal, [dict(part="residual"), dict(part="sentinels")], max_paths=200, timeout_s=60,
+    HarnessDef("template-maxAl", h_maxal,
+               [dict(part="residual"), dict(part="sentinels"),
+                # semi-concrete twins where the plain-float run of the real code (real scipy) takes the
+                # sentinel exits: residual negative on the whole window / positive on the whole window
+                dict(part="sentinels", _pin=dict(cs2=0.2, cb2=0.3, alN=0.05, psiN=0.9, wN=2.0, pN=0.4, Tn=1.0)),
+                dict(part="sentinels", cap=1.0, _pin=dict(cs2=0.4, cb2=0.2, alN=0.05, psiN=0.99, wN=2.0, pN=0.4, Tn=1.0))],
+               max_paths=200, timeout_s=60,
                axioms=AX, encodes=[HT.HydrodynamicsTemplateModel.maxAl, HT.HydrodynamicsTemplateModel._eqWall],
                random_validation=2, concrete_alarms=False, feas_timeout_ms=300),
     HarnessDef("shooting-residual", h_shooting, [dict()], max_paths=60, timeout_s=120, axioms=AX,
